@@ -100,8 +100,20 @@ theorem OD.mkFun {o : Nat} {s s' : St} {v : Bool} {spec : FSpec} {fn : Fun} (h :
     · rename_i hd hg
       split at hm
       · cases hm
+      split at hm
+      · cases hm
       · have := fin hm; subst this
         exact ⟨h.1, fun hl => h.2 (lo_aset_G_same_rev (hd := { hd with everFwd := true }) hg rfl rfl hl)⟩
+  | ownG fid g =>
+    simp only [Model.mkFun] at hm
+    split at hm
+    · cases hm
+    · split at hm
+      · cases hm
+      split at hm
+      · cases hm
+      · have := fin hm; subst this
+        exact ⟨Nat.lt_succ_of_lt h.1, h.2⟩
   | ownT fid t =>
     simp only [Model.mkFun] at hm
     split at hm
@@ -242,6 +254,8 @@ theorem OD_G_ops (o : Nat) (s : St) (op : Op) (s' : St) (r : String) (hI : OD o 
       split at h
       · simp only [Option.some.injEq, Prod.mk.injEq] at h; obtain ⟨rfl, _⟩ := h; exact hI
       split at h
+      · simp only [Option.some.injEq, Prod.mk.injEq] at h; obtain ⟨rfl, _⟩ := h; exact hI
+      split at h
       · repeat' split at h
         all_goals (simp only [Option.some.injEq, Prod.mk.injEq] at h; obtain ⟨rfl, _⟩ := h)
         all_goals (first | exact hI | exact OD.ensureImpl hI ‹_› | skip)
@@ -312,7 +326,11 @@ theorem OD_collectStep (o : Nat) (s s' : St) (h : OD o s) (hc : collectStep s = 
       split
       · exact (OD.prims o).disconnectCell _ h
       · exact h
-    · cases hc
+    · split at hc
+      · rename_i k g _
+        simp only [Option.some.injEq] at hc; subst hc
+        exact OD_forceDelG o { s with ownedG := s.ownedG.filter (fun q => q.1 ≠ k) } g h
+      · cases hc
 
 theorem OD.stable (o : Nat) : Stable (OD o) where
   log _ _ _ h := h
